@@ -130,6 +130,19 @@ def check_routes(spec, ctx):
         c2 = tuple(c.reshape(2, -1) for c in coords)
         pe2 = ctx.sut(f.pointwise_eval, c2, what="pointwise_eval(2d arrays)")
         _cmp(ctx, "pointwise_eval", pe2, P[0].reshape((2, -1) + P[0].shape[1:]), SP[0].reshape((2, -1) + SP[0].shape[1:]))
+        # the same points in other memory layouts (Fortran order, transposed views): element [i,j] of the result belongs to
+        # the point (X[i,j], Y[i,j], ..) whatever the strides of the coordinate arrays are
+        if c2[0].shape[1] >= 2:
+            cF = tuple(np.asfortranarray(c) for c in c2)
+            peF = ctx.sut(f.pointwise_eval, cF, what="pointwise_eval(Fortran-ordered arrays)")
+            _cmp(ctx, "pointwise_eval_layout", peF, P[0].reshape((2, -1) + P[0].shape[1:]), SP[0].reshape((2, -1) + SP[0].shape[1:]))
+            cT = tuple(np.ascontiguousarray(c.T).T for c in c2)        # (2, m) views of C-ordered (m, 2) arrays
+            if order >= 1:
+                pjT = ctx.sut(f.pointwise_jacobian, cT, what="pointwise_jacobian(transposed views)")
+                mpT = gg.deriv_continuous_mask_points(fs, pts, 1).reshape(2, -1)
+                _cmp(ctx, "pointwise_jacobian_layout", pjT, P[1].reshape((2, -1) + P[1].shape[1:]),
+                     SP[1].reshape((2, -1) + SP[1].shape[1:])[..., None], mask=mpT)
+            ctx.flag("non_c_contiguous_points")
     if order >= 1:
         mp = gg.deriv_continuous_mask_points(fs, pts, 1)
         pj = ctx.sut(f.pointwise_jacobian, coords, what="pointwise_jacobian")
